@@ -88,6 +88,9 @@ pub enum Target {
     FlatCoord { sigma: Vec<f64>, flat: usize },
     /// skewed product target: each coordinate log-gamma-like: logp = a*x - exp(x) (x = log Gamma(a,1))
     LogGamma { a: Vec<f64> },
+    /// first coordinate N(0, s^2), the others Laplace(0, b): piecewise-linear log density (constant
+    /// gradient on each side)
+    NormalLaplace { s: f64, b: Vec<f64> },
 }
 
 impl Target {
@@ -100,6 +103,7 @@ impl Target {
             Target::Banana { dim, .. } => *dim,
             Target::FlatCoord { sigma, .. } => sigma.len(),
             Target::LogGamma { a } => a.len(),
+            Target::NormalLaplace { b, .. } => b.len() + 1,
         }
     }
 
@@ -186,6 +190,16 @@ impl Target {
                     let e = x[i].exp();
                     lp += a[i] * x[i] - e;
                     g[i] = a[i] - e;
+                }
+                lp
+            }
+            Target::NormalLaplace { s, b } => {
+                let z = x[0] / s;
+                let mut lp = -0.5 * z * z;
+                g[0] = -z / s;
+                for i in 0..b.len() {
+                    lp += -x[i + 1].abs() / b[i];
+                    g[i + 1] = if x[i + 1] >= 0.0 { -1.0 / b[i] } else { 1.0 / b[i] };
                 }
                 lp
             }
